@@ -74,8 +74,8 @@ func c18Apply(m c18Model, msg c18Msg, now time.Time, iface string) {
 		m.set(monDefaultRoute, rk, float64(now.Add(time.Duration(ra.LifeS)*time.Second).Unix()))
 	}
 	for _, o := range ra.Opts {
-		if o.Kind != "prefix" {
-			continue
+		if o.Kind != "prefix" || o.RawLen > 128 {
+			continue // (how an option with an impossible prefix length is labelled is not prescribed)
 		}
 		pk := fmt.Sprintf("interface=%s,prefix=%s,router=%s", iface, o.Prefix, host)
 		m.set(monPrefixAutonomous, pk, b2f(o.Auto))
@@ -89,7 +89,19 @@ var c18Series = []string{monReceived, monFlagManaged, monFlagOther, monDefaultRo
 
 func c18Compare(model c18Model, got map[string]metricslite.Series, step int) error {
 	for _, s := range c18Series {
-		w, g := fmtSamples(model[s]), fmtSamples(got[s].Samples)
+		// samples labelled with something that is not a prefix come from options with an
+		// impossible prefix length (> 128): their labelling is not prescribed
+		gs := map[string]float64{}
+		for k, v := range got[s].Samples {
+			if i := strings.Index(k, "prefix="); i >= 0 {
+				p, _, _ := strings.Cut(k[i+len("prefix="):], ",")
+				if _, err := netip.ParsePrefix(p); err != nil {
+					continue
+				}
+			}
+			gs[k] = v
+		}
+		w, g := fmtSamples(model[s]), fmtSamples(gs)
 		if w != g {
 			return verifkit.Violf("C18/series-differs:"+s, "after message %d: %s\nwant %s\ngot  %s", step, s, w, g)
 		}
@@ -119,7 +131,19 @@ func c18Prop(t *testing.T, k *verifkit.Kit) func(c c18Case) error {
 				}
 			}
 		}
-		k.Record(c, prefixes > 0 || repeated, fmt.Sprintf("run-path=%v", c.RunPath), fmt.Sprintf("prefix-options/4=%d", min(prefixes/4, 5)))
+		cls := []string{fmt.Sprintf("run-path=%v", c.RunPath), fmt.Sprintf("prefix-options/4=%d", min(prefixes/4, 5))}
+		impossible := false
+		for _, m := range c.Msgs {
+			if m.RA != nil {
+				for _, o := range m.RA.Opts {
+					impossible = impossible || o.RawLen > 128
+				}
+			}
+		}
+		if impossible {
+			cls = append(cls, "impossible-prefix-length")
+		}
+		k.Record(c, prefixes > 0 || repeated, cls...)
 		model := c18Model{}
 		if !c.RunPath {
 			mem := metricslite.NewMemory()
@@ -227,8 +251,13 @@ func c18Gen(t *rapid.T) c18Case {
 				case 1:
 					ra.Opts = append(ra.Opts, c12GenOpt(t, rapid.SampledFrom([]string{"route", "rdnss", "dnssl", "mtu", "lla"}).Draw(t, "other"), c12Prefixes))
 				default:
-					ra.Opts = append(ra.Opts, vOpt{Kind: "prefix", Prefix: rapid.SampledFrom(c18Prefixes).Draw(t, "prefix"), OnLink: rapid.Bool().Draw(t, "l"), Auto: rapid.Bool().Draw(t, "a"),
-						ValidS: rapid.SampledFrom([]int64{0, 1, 600, 86400, 4294967295}).Draw(t, "valid"), PrefS: rapid.SampledFrom([]int64{0, 1, 300, 14400, 4294967295}).Draw(t, "preferred")})
+					o := vOpt{Kind: "prefix", Prefix: rapid.SampledFrom(c18Prefixes).Draw(t, "prefix"), OnLink: rapid.Bool().Draw(t, "l"), Auto: rapid.Bool().Draw(t, "a"),
+						ValidS: rapid.SampledFrom([]int64{0, 1, 600, 86400, 4294967295}).Draw(t, "valid"), PrefS: rapid.SampledFrom([]int64{0, 1, 300, 14400, 4294967295}).Draw(t, "preferred")}
+					if rapid.IntRange(0, 11).Draw(t, "rawlen") == 0 {
+						// the length is a raw byte on the wire: a peer can send 129..255
+						o.RawLen = rapid.SampledFrom([]uint8{129, 200, 255}).Draw(t, "rawlenv")
+					}
+					ra.Opts = append(ra.Opts, o)
 				}
 			}
 			m.RA = ra
